@@ -174,6 +174,9 @@ def dead_parameters(ctx, rule="RP"):
             classes.add(f.cls.qual)
         if (f.module.qual, f.name) in pkg.unused_ok or f.name.startswith("__") and f.name != "__init__":
             continue
+        from ..paths import known_functions
+        if f.name.startswith("_") and qn not in (known_functions() or {qn}):
+            continue          # a private helper added later: an unused parameter of it changes nothing for its callers
         fa = ctx.an.fa(qn)
         if not fa.ok or not fa.paths:
             continue
@@ -276,7 +279,7 @@ def permutation_gather(ctx, rule="RG"):
     INVERSE of P (argsort(P), or a scatter out[P[k]] = L[k]).  Gathering it with P itself - [L[i] for i in P] - returns, at position
     j, the entry that belongs to P[P[j]]: right only for permutations that are their own inverse (a classic argsort slip that tests
     with sorted, reversed or two-element inputs cannot see)."""
-    for qn in sorted(q for q in ctx.consulted if q in ctx.pkg.functions):
+    for qn in scope(ctx):
         fa = ctx.an.fa(qn)
         if not fa.ok:
             continue
@@ -390,7 +393,7 @@ def library_keywords(ctx, rule="RK"):
 def accumulate_uninitialised(ctx, rule="RA"):
     """`buf += x` / `buf[i] += x` where buf was allocated with np.empty / np.empty_like and never assigned as a whole: the sum starts from
     whatever the allocator returned (often zeros in a fresh process - which is why tests pass)."""
-    for qn in sorted(q for q in ctx.consulted if q in ctx.pkg.functions):
+    for qn in scope(ctx):
         fa = ctx.an.fa(qn)
         if not fa.ok:
             continue
@@ -412,3 +415,67 @@ def accumulate_uninitialised(ctx, rule="RA"):
                             bad = bad or (show(base)[:60], e.line)
         ctx.check(rule, qn + "|accumulators-initialised", False if bad else True, "no in-place accumulation into a buffer from np.empty / np.empty_like", fn=qn, nontrivial=False,
                   bad="%s is accumulated into (+=) without ever being initialised: the result contains whatever memory the allocator returned" % (bad[0] if bad else ""), line=bad[1] if bad else None)
+
+
+def scope(ctx):
+    """the functions a generic rule looks at: those the property's rules consulted, plus every method that was ADDED (not in the function
+    inventory) to a class one of them belongs to - a new override (filter, predict, ...) is an entry point no rule names"""
+    from ..paths import known_functions
+    inv = known_functions() or set()
+    out = {q for q in ctx.consulted if q in ctx.pkg.functions}
+    classes = {ctx.pkg.functions[q].cls.qual for q in out if ctx.pkg.functions[q].cls is not None}
+    family = set()
+    for cq in classes:
+        family |= set(ctx.pkg.mro(cq)) | set(ctx.pkg.subclasses(cq))
+    for q, f in ctx.pkg.functions.items():
+        if f.cls is not None and f.cls.qual in family and q not in inv:
+            out.add(q)
+    return sorted(out)
+
+
+def use_after_clobber(ctx, rule="RW"):
+    """A package function that transforms one of its ARGUMENTS in place (not an output buffer it fills by subscript stores, but an input
+    it rescales, sorts, cleans ... - e.g. least_squares scales the Jacobian unless copy_jacobian=True) leaves the caller with a
+    value that no longer means what its name says.  Any later use of that value in the caller is a defect."""
+    from ..effects import Effects
+    ef = getattr(ctx, "_effects", None)
+    if ef is None:
+        ef = ctx._effects = Effects(ctx.an)
+    clobbers = {}
+    for q, w in ef.writes.items():
+        for prm, (how, _line) in w.items():
+            if not how.startswith("subscript store") and not how.startswith("out="):
+                clobbers.setdefault(q, {})[prm] = how
+    if not clobbers:
+        return
+    for qn in scope(ctx):
+        fa = ctx.an.fa(qn)
+        if not fa.ok:
+            continue
+        bad = None
+        for fx in [fa] + list(fa.nested.values()):
+            for p in fx.paths:
+                dirty = []          # (term, callee, how)
+                for e in p.events:
+                    datas = [d for d in e.data if isinstance(d, tuple)]
+                    if e.kind == "call" and callee(e.data[0]) in clobbers:
+                        t = e.data[0]
+                        # uses inside this very call are the hand-over itself
+                        for prm, how in clobbers[callee(t)].items():
+                            a = Q.arg(ctx, t, prm)
+                            guard = Q.arg(ctx, t, "copy_" + prm)
+                            if isinstance(a, tuple) and a[0] in ("call", "sub", "attr", "param") and guard != const(True):
+                                dirty.append((a, callee(t), how, t))
+                        continue
+                    for d in datas:
+                        for a, c, how, t in dirty:
+                            if d != t and any(x == a for x in walk(d)) and not any(x == t for x in walk(d) if x is not d):
+                                bad = bad or ("%s is used after %s modified it in place (%s)" % (show(a)[:60], c.rsplit(".", 1)[1], how[:60]), e.line)
+                from ..paths import known_functions
+                private_new = qn.rsplit(".", 1)[1].startswith("_") and qn not in (known_functions() or {qn})
+                if isinstance(p.value, tuple) and not private_new:      # what a new private helper returns is judged where its callers use it
+                    for a, c, how, t in dirty:
+                        if any(x == a for x in walk(p.value)):
+                            bad = bad or ("%s is returned after %s modified it in place (%s)" % (show(a)[:60], c.rsplit(".", 1)[1], how[:60]), p.line)
+        ctx.check(rule, qn + "|no-use-after-in-place-modification", False if bad else True, "no value is used after a callee transformed it in place", fn=qn, nontrivial=False,
+                  bad=bad[0] if bad else "", line=bad[1] if bad else None)
